@@ -196,7 +196,7 @@ impl Mon {
             Ev::EnableC1 => pending_cfg = Some((sent.unwrap()[0] & 0x0F, true, [true, false, false])),
             Ev::Read(..) | Ev::ReadClass0 | Ev::ReadBinaryEvents => read_now = Some(sent.unwrap()[0] & 0x0F),
             Ev::Other => {}
-            Ev::Reconnect => {
+            Ev::Reconnect | Ev::Replace => {
                 self.out = None;
                 self.deferred = None;
                 self.deferred_due = None;
@@ -376,6 +376,7 @@ fn alphabet(rd: u64, reconnect: bool) -> Vec<Ev> {
     }
     if reconnect {
         v.push(Ev::Reconnect);
+        v.push(Ev::Replace);
     }
     v
 }
